@@ -50,11 +50,11 @@ ASSUMPTIONS = [
     'both give the same value on the boundary except for the documented zero below BOTH minima)',
 ]
 _Q = {'xsec': 60, 'ktable': 25, 'files': 8, 'zeros': 10}
-_T = {'xsec': 500, 'ktable': 200, 'files': 40, 'zeros': 60}
+_T = {'xsec': 200, 'ktable': 80, 'files': 20, 'zeros': 25}
 BUDGET = {
     'quick': [dict(name='boundscheck', env={'NUMBA_BOUNDSCHECK': '1'}, shards=8, cases=_Q)],
     'thorough': [dict(name='boundscheck', env={'NUMBA_BOUNDSCHECK': '1'}, shards=16, cases=_T),
-                 dict(name='nojit', env={'NUMBA_DISABLE_JIT': '1'}, shards=4, cases={'xsec': 150, 'ktable': 60})],
+                 dict(name='nojit', env={'NUMBA_DISABLE_JIT': '1'}, shards=4, cases={'xsec': 60, 'ktable': 25})],
 }
 REGIONS = ['%s/%s' % (a, b) for a in ('T<min', 'T-in', 'T>=max') for b in ('P<min', 'P-in', 'P>=max')]
 REQUIRED = dict(
